@@ -9,14 +9,16 @@ EXTENDS TwoPC, Json
 
 Trace == ndJsonDeserialize("trace.ndjson")
 VARIABLES l, nxt, cid,
-          todo      \* per writer: "abort" / "commit" once the driver's goroutine was told to call it, until the call begins
-tvars == <<vars, l, nxt, cid, todo>>
+          todo,     \* per writer: "abort" / "commit" once the driver's goroutine was told to call it, until the call begins
+          early     \* ids of deliveries the model performed at the "dlv" event (the replica processes a request
+                    \* somewhere between the events "dlv" and "rsp")
+tvars == <<vars, l, nxt, cid, todo, early>>
 
 Ev == Trace[l]
 At(e) == l <= Len(Trace) /\ Trace[l].e = e /\ l' = l + 1 /\ UNCHANGED <<nxt, cid>>
-Is(e) == At(e) /\ UNCHANGED todo
+Is(e) == At(e) /\ UNCHANGED <<todo, early>>
 
-TInit == Init /\ l = 1 /\ nxt = 1 /\ cid = "" /\ todo = [n \in Nodes |-> ""]
+TInit == Init /\ l = 1 /\ nxt = 1 /\ cid = "" /\ todo = [n \in Nodes |-> ""] /\ early = {}
 
 Reset ==
   /\ value' = [n \in Nodes |-> 0] /\ oldValue' = [n \in Nodes |-> 0] /\ version' = [n \in Nodes |-> 0]
@@ -30,11 +32,11 @@ Reset ==
   /\ act' = <<"init">>
 
 TCase == /\ l <= Len(Trace) /\ Trace[l].e = "case"
-         /\ l' = l + 1 /\ nxt' = l + Trace[l].len /\ cid' = Trace[l].case /\ todo' = [n \in Nodes |-> ""]
+         /\ l' = l + 1 /\ nxt' = l + Trace[l].len /\ cid' = Trace[l].case /\ todo' = [n \in Nodes |-> ""] /\ early' = {}
          /\ Reset
 
 \* abandon the current case (drift): continue with the next one
-TSkip == /\ l <= Len(Trace) /\ Trace[l].e # "case" /\ l' = nxt /\ UNCHANGED <<vars, nxt, cid, todo>>
+TSkip == /\ l <= Len(Trace) /\ Trace[l].e # "case" /\ l' = nxt /\ UNCHANGED <<vars, nxt, cid, todo, early>>
 
 MatchReq(m) == /\ m.from = Ev.from /\ m.to = Ev.to /\ m.type = Ev.t /\ m.ver = Ev.ver /\ m.st = Ev.st
                /\ (Ev.t = "Abort" \/ m.val = Ev.val)
@@ -47,11 +49,22 @@ TReq    == /\ Is("req")
            /\ \E m \in reqs : /\ MatchReq(m)
                               /\ IF m.sl THEN Wake(m) /\ [m EXCEPT !.sl = FALSE] \in reqs'
                                          ELSE UNCHANGED vars
-TRsp    == /\ Is("rsp")
-           /\ \E m \in reqs : /\ MatchReq(m) /\ ~m.sl /\ RespIs(m.to, m)
-                              /\ CASE Ev.kind = "dlv" -> Deliver(m)
-                                   [] Ev.kind = "dropresp" -> DropResp(m)
-                                   [] Ev.kind = "dup" -> Dup(m)
+DoDeliver(m) == CASE Ev.kind = "dlv" -> Deliver(m)
+                   [] Ev.kind = "dropresp" -> DropResp(m)
+                   [] Ev.kind = "dup" -> Dup(m)
+TDlv    == /\ At("dlv") /\ UNCHANGED todo
+           /\ \/ UNCHANGED <<vars, early>>
+              \/ /\ early' = early \cup {<<Ev.id, Ev.kind>>}
+                 /\ \E m \in reqs : MatchReq(m) /\ ~m.sl /\ DoDeliver(m)
+TRsp    == /\ At("rsp") /\ UNCHANGED todo
+           /\ IF <<Ev.id, Ev.kind>> \in early
+                THEN /\ early' = early \ {<<Ev.id, Ev.kind>>}
+                     /\ UNCHANGED vars
+                     /\ Ev.kind = "dlv" =>
+                           \E r \in resps : /\ r.from = Ev.from /\ r.to = Ev.to /\ r.type = Ev.t /\ r.ver = Ev.ver /\ r.st = Ev.st
+                                             /\ ~Ev.err /\ ~r.err /\ r.acc = Ev.acc /\ r.rver = Ev.rver /\ r.rval = Ev.rval
+                ELSE /\ UNCHANGED early
+                     /\ \E m \in reqs : MatchReq(m) /\ ~m.sl /\ RespIs(m.to, m) /\ DoDeliver(m)
 TDropRq == Is("dropreq") /\ \E m \in reqs : MatchReq(m) /\ ~m.sl /\ DropReq(m)
 TRel    == /\ Is("rel")
            /\ \E r \in resps : /\ r.from = Ev.from /\ r.to = Ev.to /\ r.type = Ev.t /\ r.ver = Ev.ver /\ r.st = Ev.st
@@ -60,9 +73,9 @@ TRel    == /\ Is("rel")
 TPC     == Is("pc") /\ op[Ev.p] = (IF Ev.ok THEN "prepared" ELSE "failed") /\ UNCHANGED vars
 \* Commit() and Abort() are called from a goroutine of the driver: the event says the call was ordered,
 \* the call itself (CommitStart / AbortCall of the model) begins some time later
-TCommSt == At("commitstart") /\ todo[Ev.p] = "" /\ todo' = [todo EXCEPT ![Ev.p] = "commit"] /\ UNCHANGED vars
+TCommSt == At("commitstart") /\ UNCHANGED early /\ todo[Ev.p] = "" /\ todo' = [todo EXCEPT ![Ev.p] = "commit"] /\ UNCHANGED vars
 TComm   == Is("commit") /\ op[Ev.p] = "idle" /\ todo[Ev.p] = "" /\ UNCHANGED vars
-TAbSt   == At("abortstart") /\ todo[Ev.p] = "" /\ todo' = [todo EXCEPT ![Ev.p] = "abort"] /\ UNCHANGED vars
+TAbSt   == At("abortstart") /\ UNCHANGED early /\ todo[Ev.p] = "" /\ todo' = [todo EXCEPT ![Ev.p] = "abort"] /\ UNCHANGED vars
 TAb     == Is("abort") /\ op[Ev.p] = "idle" /\ todo[Ev.p] = "" /\ UNCHANGED vars
 TObs    == Is("obs") /\ version[Ev.n] = Ev.ver /\ oldValue[Ev.n] = Ev.val /\ UNCHANGED vars
 TSt     == /\ Is("st")
@@ -70,15 +83,15 @@ TSt     == /\ Is("st")
            /\ cs[Ev.n] = Ev.cs /\ tpc[Ev.n] = Ev.tpc /\ acc[Ev.n].from = Ev.accFrom /\ acc[Ev.n].ver = Ev.accVer
            /\ UNCHANGED vars
 TSolo   == Is("solo") /\ GoSolo(Ev.p)
-TNoop   == l <= Len(Trace) /\ Trace[l].e \in {"dlv", "soloend", "drift", "gap"} /\ l' = l + 1 /\ UNCHANGED <<vars, nxt, cid, todo>>
+TNoop   == l <= Len(Trace) /\ Trace[l].e \in {"soloend", "drift", "gap"} /\ l' = l + 1 /\ UNCHANGED <<vars, nxt, cid, todo, early>>
 TEnd    == Is("end") /\ PrintT(<<"CONFORMS", cid>>) /\ UNCHANGED vars
 
-Hidden  == /\ UNCHANGED <<l, nxt, cid>>
+Hidden  == /\ UNCHANGED <<l, nxt, cid, early>>
            /\ \/ UNCHANGED todo /\ \E p \in Writers : PCStart(p) \/ PCDecide(p) \/ RollbackDone(p) \/ AbortDone(p) \/ CommitDone(p)
               \/ UNCHANGED todo /\ \E m \in reqs : m.sl /\ version[m.from] # m.ov /\ Wake(m)
               \/ \E p \in Writers : /\ todo[p] # "" /\ todo' = [todo EXCEPT ![p] = ""]
                                       /\ IF todo[p] = "commit" THEN CommitStart(p) ELSE AbortCall(p)
 
-TNext0 == TCase \/ TSkip \/ TRead \/ TWrite \/ TPCSt \/ TReq \/ TRsp \/ TDropRq \/ TRel \/ TPC \/ TCommSt \/ TComm
+TNext0 == TCase \/ TSkip \/ TRead \/ TWrite \/ TPCSt \/ TReq \/ TDlv \/ TRsp \/ TDropRq \/ TRel \/ TPC \/ TCommSt \/ TComm
           \/ TAbSt \/ TAb \/ TObs \/ TSt \/ TSolo \/ TNoop \/ TEnd \/ Hidden
 =============================================================================
